@@ -90,6 +90,7 @@ def op_strategy(queries):
         st.tuples(st.just('unsub'), CL, SCRIPT),
         st.tuples(st.just('hsub'), CL),
         st.tuples(st.just('sub_slow'), CL, SCRIPT, BLOCK),
+        st.tuples(st.just('flag_flip'), CL, SCRIPT, SCRIPT),
         st.tuples(st.just('sleep'), st.integers(0, len(SLEEPS) - 1)),
         st.tuples(st.just('sleep'), st.integers(0, len(SLEEPS) - 1)),
         st.tuples(st.just('quiesce')),
@@ -415,6 +416,30 @@ class SystemMachine:
             c = self.client(op[1])
             if c is not None:
                 self.send(c, 'blockchain.headers.subscribe', [], {'kind': 'hsub'})
+        elif kind == 'flag_flip':
+            # a subscribed script whose only change is the has-unconfirmed-inputs flag of a
+            # transaction that stays: its parent (paying another script) gets confirmed
+            c = self.client(op[1])
+            if c is None or len(w.mempool) > 4:
+                return
+            parent = w.mp_add({'ins': [[0, 2]], 'outs': [[op[2], 1], [op[2], 3]]})
+            if parent is None:
+                return
+            child = w.mp_add_spending([(parent.txid, 0)], [[op[3], 1]])
+            if child is None:
+                return
+            self.subscribed[c].add(op[3])
+            self.send(c, 'blockchain.scripthash.subscribe', [W.scripthash_hex(W.SCRIPTS[op[3]])],
+                      {'kind': 'sub', 'script': op[3]})
+            await asyncio.sleep(7)
+            pool = list(w.mempool)
+            if parent.txid in pool:
+                w.extend([{'cb': [[op[2], 0]], 'nonce': 3, 'coll': None, 'txs': [],
+                           'mp': [pool.index(parent.txid)]}])
+                if child.txid in w.mempool and parent.txid not in w.mempool:
+                    self.info['classes'].add('parent_confirmed_flag_flip')
+                self.max_tip_seen = max(self.max_tip_seen, w.height)
+                self.since['block'] = self.since['mempool'] = True
         elif kind == 'sleep':
             await asyncio.sleep(SLEEPS[op[1]])
         elif kind == 'quiesce':
